@@ -210,6 +210,17 @@ def _analyse(ctx):
                                 any(isinstance(x, ast.Name) and x.id in setvars for x in (v.left, v.right)):
                             setvars.add(n.targets[0].id)
                 for n in ast.walk(node):
+                    # taking "an" element of a set: which one depends on the hash seed
+                    if isinstance(n, ast.Call) and isinstance(n.func, ast.Attribute) and n.func.attr == "pop" and not n.args and isinstance(n.func.value, ast.Name) \
+                            and n.func.value.id in setvars and (m.rel.startswith(CORE_PREFIX) or m.rel in ("assembler.py",)):
+                        findings.append(("DET-5", f.q, "takes an arbitrary element of a set (%s)" % U(n)[:30],
+                                         "%s calls %s on a set: which element comes out depends on the hash seed of the process, so the value differs between runs of the same source"
+                                         % (f.q, U(n)[:40]), "%s:%d" % (m.rel, n.lineno)))
+                    if isinstance(n, ast.Call) and U(n.func) in ("next",) and n.args and isinstance(n.args[0], ast.Call) and U(n.args[0].func) == "iter" and n.args[0].args \
+                            and isinstance(n.args[0].args[0], ast.Name) and n.args[0].args[0].id in setvars and m.rel.startswith(CORE_PREFIX):
+                        findings.append(("DET-5", f.q, "takes an arbitrary element of a set (%s)" % U(n)[:30],
+                                         "%s takes next(iter(<set>)): the element depends on the hash seed" % f.q, "%s:%d" % (m.rel, n.lineno)))
+                for n in ast.walk(node):
                     its = []
                     if isinstance(n, ast.For):
                         its.append(n.iter)
@@ -475,6 +486,28 @@ def det4(ctx, c):
         # passing the lines on: only to parse / Statement(line)
         c.ok("%s.%s" % (cls, meth), "source lines only read")
     c.floor("entry points", 2, 2)
+    # the methods that only report (listing, symbol table, image) leave the program as it is: asking for one must not change what another returns
+    for meth in ("get_statements", "get_symbol_table", "get_binary_array"):
+        P = repo.cls("Program")
+        f = P.methods.get(meth)
+        if f is None:
+            continue
+        hit = None
+        for kind, tgt, st in mutations(f.node):
+            recv = tgt if not kind.startswith("attribute") else tgt.value
+            r = root_of(recv)
+            if isinstance(r, ast.Name) and r.id == "self":
+                hit = hit or st
+        for x in ast.walk(f.node):
+            if isinstance(x, ast.Call) and isinstance(x.func, ast.Attribute) and x.func.attr in ("sort", "reverse", "pop", "remove", "clear", "insert", "append", "extend") \
+                    and U(x.func.value).startswith("self."):
+                hit = hit or x
+        if hit is not None:
+            c.finding("Program.%s" % meth, "changes the program while reporting on it (%s)" % U(hit)[:40],
+                      "Program.%s modifies the program's own state (`%s`): what get_binary_array / get_statements return then depends on which of them was called first, so the same "
+                      "source gives different output" % (meth, U(hit)[:60]), repo.loc(f, hit))
+        else:
+            c.ok("Program.%s" % meth, "only reads the program", repo.loc(f, f.node))
 
 
 RULES = {"DET-1": det1, "DET-2": det2, "DET-3": det3, "DET-4": det4, "DET-5": det5, "DET-6": det6}
